@@ -118,6 +118,15 @@ main(int argc, char *argv[])
 		setenv("OVNI_TMPDIR", path, 1);
 	}
 
+	if (getenv("VERIF_RELTRACE")) {
+		/* the trace directories are given relative to the working directory; the op "cd" changes it later */
+		if (chdir(dir) != 0)
+			return 2;
+		setenv("OVNI_TRACEDIR", "trace", 1);
+		if (getenv("OVNI_TMPDIR"))
+			setenv("OVNI_TMPDIR", "tmp", 1);
+	}
+
 	if (strcmp(argv[2], "-") != 0) {
 		char *s = strdup(argv[2]);
 		for (char *t = strtok(s, ","); t && nshort < 64; t = strtok(NULL, ",")) {
@@ -216,6 +225,11 @@ main(int argc, char *argv[])
 			fprintf(logf, "R OHx %" PRIu64 "\n", ovni_ev_get_clock(&ev));
 			fflush(logf);
 			ovni_ev_emit(&ev);
+		} else if (op[0] == 'c' && op[1] == 'd') {
+			/* the program changes its working directory (nothing the tracing protocol forbids) */
+			mkdir("elsewhere", 0755);
+			if (chdir("elsewhere") != 0)
+				return 2;
 		} else if (op[0] == 'E') {
 			struct ovni_ev ev = {0};
 			ovni_ev_set_clock(&ev, ovni_clock_now());
